@@ -167,6 +167,9 @@ def bulk_job(arg):
     return rep
 
 
+URLISH = ["/r/ready", "/r/ready?", "/r/ready#", "/r/ready;", "/r/ready?x=1", "/r/ready#frag", "/r/a\tb", "/r/ab", "/r/a b", "/r/a%20b", "/r/a+b", "/q/x;y/z", "/q/x/z", "/q/x;y;/z", "/w/a:b", "/w/a", "/w/'q'", "/w/\"q\"", "/w/q",
+          "/u/caf\u00e9", "/u/cafe\u0301", "/u/A", "/u/a"]
+
 OPS = ["store", "has", "fetch", "sync", "fetch_paths", "reopen", "has_absent", "fetch_absent", "fetch_paths_absent", "sync_other", "resync"]
 
 
@@ -432,6 +435,8 @@ def run(tier, seed):
             jobs.append(("bulk", (kind, name, ps, 1 if name != "depth3" else 7)))
         for i, ms in enumerate(mixed_sets):
             jobs.append(("bulk", (kind, "mixed%d" % i, ms, 3)))
+        # names that differ only by characters with a meaning in URLs / shells / text protocols
+        jobs.append(("bulk", (kind, "url-chars", URLISH, 2)))
     # op sequences
     spaths = ["/a/b/c", "/ab/c", "/a/bc", "/x", "/é/a b", "/a.b/.a"]
     nseq = 400 if tier == "quick" else 4000
